@@ -85,6 +85,7 @@ type view struct {
 	moreGroups [][][]text.TextFragment
 	moreStrs   [][]string
 	facets     []string            // names for failure details: first the group sets (primary, more…), then the string sets
+	override   string              // a defect the API runner saw directly (named signature; no geometry needed)
 	allKinds   []string            // kind of every element, parallel to strs (element views only)
 	paras      []paraInfo          // paragraphs the element tree was built from (element views only; classification aid)
 	part       int                 // 1: detectors fed with fragments, 2: public API on a PDF
@@ -182,6 +183,9 @@ func reverse(s string) string {
 func judge(items []item, v view, family, aspect string) verdict {
 	if v.err != nil {
 		return verdict{sig: "api-error", detail: v.err.Error()}
+	}
+	if v.override != "" {
+		return verdict{sig: v.override, detail: "see the signature: the observation point detected this directly"}
 	}
 	n := len(items)
 	lost := make([]bool, n)
@@ -424,7 +428,7 @@ const (
 )
 
 func sameRow(a, b item) bool {
-	return math.Abs(a.y-b.y) <= pinSameRow*math.Max(a.h, b.h)
+	return math.Abs(a.y-b.y) <= pinSameRow*(a.h+b.h)/2
 }
 
 func hgap(a, b item) float64 {
@@ -663,6 +667,78 @@ func classifyLost(items []item, lost []bool, family string, v view) []string {
 				}
 			}
 			if !whole {
+				continue
+			}
+			x0, y0, x1, y1 := extent(items, ids)
+			switch {
+			case x1-x0 < pinMinBlockWidth:
+				classes["block-narrower-than-10pt"] = true
+			case y1-y0 < pinMinBlockHeight:
+				classes["block-lower-than-5pt"] = true
+			default:
+				continue
+			}
+			for _, a := range ids {
+				explained[a] = true
+			}
+		}
+	}
+	// (c') tabula groups rows in stream-dependent order, so the re-derived blocks can be coarser than its own: a row
+	// that is lost as a whole and on its own is smaller than the minimum block size is explained as well.
+	if family == "block" {
+		rowsUF := newUF(n)
+		for a := 0; a < n; a++ {
+			for b := a + 1; b < n; b++ {
+				if sameRow(items[a], items[b]) {
+					rowsUF.join(a, b)
+				}
+			}
+		}
+		rm := map[int][]int{}
+		for a := 0; a < n; a++ {
+			rm[rowsUF.find(a)] = append(rm[rowsUF.find(a)], a)
+		}
+		for _, ids := range rm {
+			whole, open := true, false
+			for _, a := range ids {
+				if !lost[a] && !uncertain[a] {
+					whole = false
+				}
+				if lost[a] && !explained[a] {
+					open = true
+				}
+			}
+			if !whole || !open {
+				continue
+			}
+			x0, y0, x1, y1 := extent(items, ids)
+			switch {
+			case x1-x0 < pinMinBlockWidth:
+				classes["block-narrower-than-10pt"] = true
+			case y1-y0 < pinMinBlockHeight:
+				classes["block-lower-than-5pt"] = true
+			default:
+				continue
+			}
+			for _, a := range ids {
+				explained[a] = true
+			}
+		}
+	}
+	// (c'') … and its rows are not transitive (a fragment joins the row of the fragment sorted before it): as a last resort a
+	// visual line run that is lost as a whole and is itself smaller than the minimum block size is explained.
+	if family == "block" {
+		for _, ids := range runMembers {
+			whole, open := true, false
+			for _, a := range ids {
+				if !lost[a] && !uncertain[a] {
+					whole = false
+				}
+				if lost[a] && !explained[a] {
+					open = true
+				}
+			}
+			if !whole || !open {
 				continue
 			}
 			x0, y0, x1, y1 := extent(items, ids)
